@@ -345,11 +345,24 @@ def m_name_clash():
     return model([x, cond], [iff.outputs[0]], [a, iff], [w])
 
 
+def m_bare_initializers():
+    """initializers whose values carry no type/shape of their own, one of them without data, sizes around 1 KB"""
+    x = fval("x", (2, 3))
+    w_small = ir.Value(name="w_small", const_value=ir.tensor(arr(1), name="w_small"))
+    w_big = ir.Value(name="w_big", const_value=ir.tensor(np.arange(300, dtype=np.float32).reshape(100, 3), name="w_big"))
+    w_mid = const("w_mid", np.arange(6, dtype=np.float32).reshape(3, 2))
+    a = node("Add", [x, w_small], name="a")
+    b = node("MatMul", [w_big, w_mid], name="b")
+    c = node("MatMul", [a.outputs[0], w_mid], name="c")
+    return model([x], [c.outputs[0], b.outputs[0]], [a, b, c], [w_small, w_big, w_mid])
+
+
 MODELS = {
     "dup_add": m_dup_add, "dup_attr": m_dup_attr, "optional_inputs": m_optional_inputs, "multi_output": m_multi_output,
     "identity": m_identity, "dup_initializers": m_dup_initializers, "constants": m_constants, "if_capture": m_if_capture,
     "nested_if": m_nested_if, "loop": m_loop, "functions": m_functions, "function_old_opset": m_function_old_opset,
     "alias_outputs": m_alias_outputs, "unsorted": m_unsorted, "random": m_random, "init_inputs": m_init_inputs, "name_clash": m_name_clash,
+    "bare_initializers": m_bare_initializers,
 }
 
 
